@@ -1,12 +1,13 @@
 import FitProps.EndToEndBridgeLemmas
 /-!
-The record loops of the two decoder models (C01 end to end): `bridge_records` — where `Wire.decodeRecords` parses
+The record loops of the two decoder models (C01 end to end): `bridge_records` — where `Wire.decodeRecordsF` parses
 a byte string into items, `Fit.DecApi.decodeMessages` on the same bytes ends normally, at the same position, with the
 messages the items interpret to (`GoodItems`).
 -/
 set_option linter.unusedSimpArgs false
 namespace Fit.E2E
 open Fit.Gen Fit.Gen.DecApi Fit.Value Fit.DecApi Fit.Crc
+open Fit.Wire (takeDevs_split wire_record_cases)
 
 /-- what one record does to the decoder-API state, as far as the framing goes -/
 structure StepOut (s s2 : St) (bs rest1 : List Nat) : Prop where
@@ -166,7 +167,7 @@ theorem step_data (tsKnown : Nat → Bool) (ds : Wire.DecState) (s : St) (hd : N
     (hk : ∀ m, tsKnown m = (s.o.fac.create m fieldNumTimestamp).known)
     (hdef : (hd &&& 0xC0 == 0x40) = false)
     (hl : ds.lookup ((if (hd &&& 0x80 == 0x80) = true then (hd &&& 0x60) >>> 5 else hd) &&& 0xF) = some wd)
-    (ht : Wire.takeFields wd.fields bs0 = .ok (fs, bs1)) (htd : Wire.takeDevs wd.devs bs1 = .ok (dvs, rest1))
+    (ht : Wire.takeFields wd.fields bs0 = .ok (fs, bs1)) (htd : Wire.takeDevsF wd.devs bs1 = .ok (dvs, rest1))
     (hI : InterpAll s.o.fac wd.mesgNum wd.arch (cvFs fs) rs)
     (hT : TsAgreeAll (s.o.fac.create wd.mesgNum fieldNumTimestamp).known wd.arch fs rs)
     (hD : InterpDevs (descsAfter s.look.descs wd.mesgNum (fieldsOfRec s.o.fac
@@ -274,14 +275,14 @@ theorem step_data (tsKnown : Nat → Bool) (ds : Wire.DecState) (s : St) (hd : N
 
 /-! ### the record loops -/
 
-/-- **The two decoder models agree on record streams.** Where the framing decoder (`Wire.decodeRecords`, with budget
+/-- **The two decoder models agree on record streams.** Where the framing decoder (`Wire.decodeRecordsF`, with budget
 `remaining` = what is left of the data size) parses `bs` into `items` and stops at `rest`, the decoder-API model in a
 state that simulates it — same live definitions, same active timestamp — decodes the same records, ends normally, stops
 at the same position with its running CRC over exactly the consumed bytes, and has appended the messages the items
 interpret to. -/
 theorem bridge_records (tsKnown : Nat → Bool) : ∀ (fuel : Nat) (ds : Wire.DecState) (remaining : Nat) (bs : List Nat)
     (items : List Wire.Item) (rest : List Nat) (s : St) (msgs : List Msg),
-    Wire.decodeRecords tsKnown fuel ds remaining bs = (items, .ok rest) →
+    Wire.decodeRecordsF tsKnown fuel ds remaining bs = (items, .ok rest) →
     SimW ds s → s.rest = bs → IsBytes bs → remaining = s.q.hdr.dataSize - s.q.cur → s.q.cur + bs.length < 4294967296 →
     PlainOpts s.o → (∀ m, tsKnown m = (s.o.fac.create m fieldNumTimestamp).known) →
     GoodItems s.o.fac s.look.descs items msgs →
@@ -293,7 +294,7 @@ theorem bridge_records (tsKnown : Nat → Bool) : ∀ (fuel : Nat) (ds : Wire.De
   induction fuel with
   | zero =>
     intro ds remaining bs items rest s msgs h _ hr _ hrem hsmall _ _ hg
-    simp only [Wire.decodeRecords] at h
+    simp only [Wire.decodeRecordsF] at h
     split at h
     · rename_i h0
       simp only [Prod.mk.injEq, Except.ok.injEq] at h
@@ -305,7 +306,7 @@ theorem bridge_records (tsKnown : Nat → Bool) : ∀ (fuel : Nat) (ds : Wire.De
     · simp at h
   | succ fuel ih =>
     intro ds remaining bs items rest s msgs h hsim hr hb hrem hsmall ho hk hg
-    simp only [Wire.decodeRecords] at h
+    simp only [Wire.decodeRecordsF] at h
     split at h
     · rename_i h0
       simp only [Prod.mk.injEq, Except.ok.injEq] at h
@@ -316,13 +317,13 @@ theorem bridge_records (tsKnown : Nat → Bool) : ∀ (fuel : Nat) (ds : Wire.De
       exact ⟨s, by simp [decodeMessages, hnc], hr, by simp, rfl, rfl, rfl, rfl, [], by simp, by simp, by simp [write]⟩
     · rename_i h0
       have hlt : s.q.cur < s.q.hdr.dataSize := by omega
-      cases hrec : Wire.decodeRecord tsKnown ds bs with
+      cases hrec : Wire.decodeRecordF tsKnown ds bs with
       | error e => rw [hrec] at h; simp at h
       | ok pr =>
         obtain ⟨it, ds', rest1⟩ := pr
         rw [hrec] at h
         simp only at h
-        cases hrr : Wire.decodeRecords tsKnown fuel ds' (remaining - (bs.length - rest1.length)) rest1 with
+        cases hrr : Wire.decodeRecordsF tsKnown fuel ds' (remaining - (bs.length - rest1.length)) rest1 with
         | mk its r =>
           rw [hrr] at h
           simp only [Prod.mk.injEq] at h
